@@ -1,9 +1,9 @@
 """C15 kernels: variable-length integers (WOFF2 255UInt16 / UIntBase128, otTables uint32var)."""
-from sx.api import kernel, V, ob, observe, eq, conj, shim, assume, tobytes
+from sx.api import kernel, shim_all, V, ob, observe, eq, conj, shim, assume, tobytes
 import fontTools.ttLib.woff2 as W
 from fontTools.ttLib import TTLibError
 
-shim(W, 'struct', 'byteord', 'bytechr', 'range')
+shim_all(W)
 
 F = ['ttLib/woff2.py:pack255UShort', 'ttLib/woff2.py:unpack255UShort', 'ttLib/woff2.py:packBase128',
      'ttLib/woff2.py:unpackBase128', 'ttLib/woff2.py:base128Size']
